@@ -179,8 +179,9 @@ CLAIMED = {
         "(duplicated samples / clusters, K=1, n=1, K=n one-hot, uniform predictions, constant or zero affinities, zero weight rows, "
         "coinciding cut points, duplicated columns); every output must be defined on every feasible path (guards proved by the "
         "solver; x/0 with x != 0 follows IEEE). Concrete float64 witnesses complement the exact-arithmetic jobs: every estimator on features scaled by 1/100/1000, affinities on duplicated samples, long saturated inputs; gradient shape on the degenerate families.",
-        "NOT covered and stated as such: features scaled by a thousand, soft-max saturation, float under/overflow (no SMT theory of "
-        "floating-point exp; in exact arithmetic exp never saturates); whole fit/path runs on degenerate data.",
+        "NOT decided by the solver and stated as such: soft-max saturation and float under/overflow (no SMT theory of floating-point "
+        "exp; in exact arithmetic exp never saturates) -- these are only sampled by the concrete float64 witnesses (features scaled by "
+        "100 and 1000 for every estimator, 96- and 1500-row saturated / constant inputs, duplicated samples); whole path runs on degenerate data.",
         "DESIGN.md §4 C17", None),
     "C20": (
         "Claimed in part.  NumPy's generator is replaced by tagged symbolic draws (each draw remembers the distribution parameters "
